@@ -57,3 +57,10 @@ CASES += [
          old="   if (len > N)\n      throw std::runtime_error( \"length requested from get() exceeds buffer length\");",
          new="   if (len >= N)\n      throw std::runtime_error( \"length requested from get() exceeds buffer length\");"),
 ]
+
+CASES += [
+    dict(id='c19-write-buffer-one-byte-short', prop='C19', file='src/celma/common/write_buffer.hpp', expect='O7',
+         old="   mpBuffer( new unsigned char[ N])", new="   mpBuffer( new unsigned char[ N - 1])"),
+    dict(id='c19-eq-read-buffer-one-byte-more', prop='C19', file='src/celma/common/read_buffer.hpp', expect=None,
+         old="   mpBuffer( new unsigned char[ N])", new="   mpBuffer( new unsigned char[ N + 1])"),
+]
